@@ -1063,8 +1063,11 @@ class Engine:
         r = self.check(neg)
         model = self.model() if r == z3.sat else None
         self._links = []
-        if r == z3.sat and self.mulmode == "uf" and self._refine_unknown.get(oid, 0) < 2:
+        refined = None
+        if r == z3.sat and self.mulmode == "uf" and self._refine_unknown.get(oid, 0) < 3:
+            before = self._refine_unknown.get(oid, 0)
             r, model = self._refine(neg, model, oid)
+            refined = r == z3.sat and self._refine_unknown.get(oid, 0) == before  # a model of the real products
         if r == z3.sat and not self.nra:
             # prefer a counterexample on a dyadic grid (exactly representable in binary64, so that
             # boundary cases of tolerances survive the float replay)
@@ -1084,8 +1087,10 @@ class Engine:
         if r == z3.sat:
             o["failed"] += 1
             self._path_failed = True
-            if len(o["cex"]) < 4:
-                o["cex"].append(self._cex(model, oid, info, neg))
+            if len(o["cex"]) < 4 or (refined and sum(1 for c in o["cex"] if c.get("refined")) < 4):
+                c = self._cex(model, oid, info, neg)
+                c["refined"] = bool(refined)
+                o["cex"].append(c)
             return False
         o["unknown"] += 1
         self.unknown.append(("prove", oid))
@@ -1143,7 +1148,7 @@ class Engine:
             return z3.sat, model
         t0 = time.time()
         f = z3.Solver()
-        f.set("timeout", 15000)
+        f.set("timeout", getattr(self, "refine_timeout_ms", 45000))
         f.add(*self.solver.assertions())
         f.add(neg)
         f.add(*links)
@@ -1157,8 +1162,64 @@ class Engine:
             self.stats.inc("refuted_by_refinement")
             self._links = links
             return z3.unsat, None
+        # z3 gives up quickly on NRA mixed with uninterpreted functions: second attempt on the pure
+        # polynomial formula (products substituted in, every other application Ackermannised)
+        r2, m2 = self._refine_ackermann(neg)
+        if r2 == z3.sat:
+            return z3.sat, m2
+        if r2 == z3.unsat:
+            self.stats.inc("refuted_by_refinement")
+            self._links = links
+            return z3.unsat, None
         self._refine_unknown[oid] = self._refine_unknown.get(oid, 0) + 1
         return z3.sat, model
+
+    def _refine_ackermann(self, neg):
+        t0 = time.time()
+        subs, side, groups = [], [], {}
+        for k, (name, args, res) in enumerate(self.uflog):
+            if name == "MUL":
+                subs.append((res, args[0] * args[1]))
+            else:
+                v = z3.Real(f"ack!{k}")
+                subs.append((res, v))
+                if name == "DIV":
+                    side.append(z3.Implies(args[1] != 0, v * args[1] == args[0]))
+                groups.setdefault((name, len(args)), []).append((args, v))
+        for lst in groups.values():
+            for i in range(len(lst)):
+                for j in range(i + 1, len(lst)):
+                    (a1, v1), (a2, v2) = lst[i], lst[j]
+                    side.append(z3.Implies(z3.And(*[x == y for x, y in zip(a1, a2)]) if a1 else z3.BoolVal(True), v1 == v2))
+        # innermost applications last, so that outer terms are matched before their arguments change
+        subs.sort(key=lambda p: -len(p[0].sexpr()))
+        fs = [z3.substitute(a, *subs) for a in list(self.solver.assertions()) + [neg] + side]
+        f = z3.Solver()
+        f.set("timeout", getattr(self, "refine_timeout_ms", 45000))
+        f.add(*fs)
+        r = f.check()
+        self.stats.inc("queries")
+        self.stats.inc("ackermann_refinements")
+        self.stats.inc("solver_s", time.time() - t0)
+        if r != z3.sat:
+            return r, None
+        # rebuild a model over the original vocabulary: the inputs keep their values, each logged
+        # application gets the value of its stand-in
+        m = f.model()
+        g = z3.Solver()
+        g.set("timeout", 20000)
+        g.add(*self.solver.assertions())
+        g.add(neg)
+        for n, v in self.inputs.items():
+            g.add(v == m.eval(v, model_completion=True))
+        for k, (name, args, res) in enumerate(self.uflog):
+            if name != "MUL":
+                g.add(res == m.eval(z3.Real(f"ack!{k}"), model_completion=True))
+            else:
+                g.add(res == args[0] * args[1])
+        if g.check() == z3.sat:
+            return z3.sat, g.model()
+        return z3.unknown, None
 
     def more_models(self, oid_neg, k=3):
         return []
